@@ -73,11 +73,15 @@ class EventLoop:
         c = ctx()
         ts, ty = c._const('event_ts', R), c._const('event_type', z3.IntSort())
         c.assume(z3.And(ty >= 0, ty <= 3))
+        # the clock's own contract (C12): events lie between the start and the end of the end DAY
+        c.assume(ts >= lift(self.H.start))
         self.H.trace.clear()
         self.H.ev = (ts, ty)
+        self.H.open_iteration = True
         return _Event(SymTime(ts), SymEnum(ty))
 
     def preserved(self, env):
+        self.H.open_iteration = False
         self.H.check_iteration()
         raise Abort()
 
@@ -122,6 +126,10 @@ def session_run(c):
         def append(self, x):
             T.append(('equity.append', lift(x[0]), lift(x[1])))
 
+    H.start, H.open_iteration = c.time('start_dt'), False
+    s.start_dt, s.end_dt = H.start, c.time('end_dt')
+    s.universe = s.alpha_model = s.risk_model = None
+    s.portfolio_id, s.long_only = '000001', False
     s.sim_engine, s.broker, s.qts = _Clock(), Broker(), Qts()
     s.signals = Signals() if has_signals else None
     s.burn_in_dt = SymTime(burn) if has_burn else None
@@ -162,6 +170,8 @@ def session_run(c):
     finally:
         heap.LOOPSPEC.pop(RUN_LOOP, None)
     c.ob('allocations-collected-from-the-rebalances', isinstance(s.target_allocations, list) or hasattr(s.target_allocations, 'append'), kind='A')
+    # the loop may only end when the clock is exhausted: an event left half-processed / skipped means the run stopped early
+    c.ob('every-clock-event-is-processed', not H.open_iteration, props=['C14', 'C08'])
 
 
 session_run.harness.conc = False
@@ -173,6 +183,8 @@ canary('equity appended on market open too', BacktestTradingSession, 'run',
        'if event.event_type == "market_close":\n                if self.burn_in_dt', 'if event.event_type != "pre_market":\n                if self.burn_in_dt')(session_run)
 canary('signals updated on every event', BacktestTradingSession, 'run',
        'if self.signals is not None and event.event_type == "market_close":', 'if self.signals is not None:')(session_run)
+canary('run stops at the end timestamp instead of the end of the clock', BacktestTradingSession, 'run',
+       '            dt = event.ts\n', '            dt = event.ts\n            if dt > self.end_dt:\n                break\n')(session_run)
 canary('broker updated after the rebalance', BacktestTradingSession, 'run',
        '            self.broker.update(dt)\n', '            pass\n')(session_run)
 
